@@ -231,6 +231,7 @@ class Contract:
     abstract_locals: dict = field(default_factory=dict)   # local name -> "pageset" | "namerel" (ghost view of a container)
     abstract_calls: dict = field(default_factory=dict)    # simple callee name -> abstract handler (assumed contract)
     asserts: dict = field(default_factory=dict)           # statement fingerprint -> clauses checked before it runs
+    taint: dict = field(default_factory=dict)             # local name -> tag put on opaque values assigned to it
     pop_guard: bool = False
     ctx_facts: list = field(default_factory=list)
 
@@ -537,12 +538,21 @@ class X:
         v = self.lookup(e.id, st, chain)
         if v is None and e.id in CTX_NAMES:
             return [(st, V("ctx", "ctx"))]
+        if v is None and self.in_clause and self._is_local_of_fn(e.id):
+            # a local of the function that is not (yet) assigned on this path
+            return [(st, V("unbound", e.id))]
         if v is None:
             if self.mode == "frame":
                 self.note_opaque("free name " + e.id)
                 return [(st, V("opq", "name:" + e.id))]
             raise OutOfReach(f"unbound name {e.id} (line {e.lineno})")
         return [(st, v)]
+
+    def _is_local_of_fn(self, name) -> bool:
+        loc = getattr(self, "_fn_locals", None)
+        if loc is None:
+            loc = self._fn_locals = self.assigned_names(self.fn.body)
+        return name in loc
 
     def ev_JoinedStr(self, e, st, chain):
         parts = list(e.values)
@@ -877,6 +887,8 @@ class X:
 
     # ------------------------------------------------------------ assignment
     def assign_name(self, name: str, v: V, st: St, chain: tuple):
+        if self.c.taint and self.depth == 0 and name in self.c.taint and v.k == "opq":
+            v = V("opq", v.t, frozenset(v.tags) | {self.c.taint[name]})
         # nonlocal/global declared?  find the scope that owns the name
         decl = self._decl_scope.get((chain[0], name)) if hasattr(self, "_decl_scope") else None
         if decl is not None:
@@ -1001,7 +1013,12 @@ class X:
                         o = base.heap[v0.t]
                         d[name] = self.alloc(base, HList(None, "opq") if isinstance(o, HList) else HDict(None))
                     else:
-                        d[name] = vopq("j_" + name)
+                        tags = set(v0.tags or ())
+                        for g in group[1:]:
+                            vv = g.scopes.get(sid, {}).get(name)
+                            if vv is not None:
+                                tags |= set(vv.tags or ())
+                        d[name] = vopq("j_" + name, frozenset(tags))
         for hid in list(base.heap):
             o0 = base.heap[hid]
             its0 = getattr(o0, "items", None)
